@@ -4,6 +4,8 @@ C01 - control replies resolve commands FIFO, exactly once, one command in flight
 Case (driver "session"):
   {"cmds": [{"kind": "plain"|"lines", "text": "GETINFO a", "reply": <reply dict>} ...],
    "sched": [0 | n>0, ...]}          0 = submit the next command, n = deliver up to n bytes
+A command may carry "then": m - when it resolves, its callback submits the next m commands (re-entrant
+submission from inside the reply dispatch).
 The server is causal: reply k enters the pipe only once command k has been written.
 After the schedule everything left is submitted and delivered in one go.
 """
@@ -79,9 +81,10 @@ CMD_TEXTS = ["GETINFO version", "GETINFO ns/all", "GETCONF SocksPort", "SIGNAL N
 
 
 def commands(long=True, max_parts=5):
-    return st.builds(lambda k, t, r: {"kind": k, "text": t, "reply": r},
+    return st.builds(lambda k, t, r, then: {"kind": k, "text": t, "reply": r, "then": then},
                      st.sampled_from(["plain", "plain", "lines"]),
-                     st.sampled_from(CMD_TEXTS), replies(max_parts, long))
+                     st.sampled_from(CMD_TEXTS), replies(max_parts, long),
+                     st.sampled_from([0, 0, 0, 1, 2]))
 
 
 def schedules():
@@ -127,6 +130,7 @@ class _Session(object):
         self.watches = []
         self.lines = []
         self.submitted = 0
+        self.reentrant = 0
         self.submit_while_midreply = False
 
     def submit_next(self):
@@ -151,6 +155,16 @@ class _Session(object):
             else:
                 d = proto.queue_command(c["text"], got.append)
         self.watches.append(Watch(d))
+        m = c.get("then", 0)
+        if m:
+            # re-entrant submission: when this command resolves (either way) its callback
+            # submits the next m commands, as an application's callback chain would
+            def again(_):
+                for _i in range(m):
+                    if self.submitted < len(self.cmds):
+                        self.reentrant += 1
+                        self.submit_next()
+            d.addBoth(again)
         self.pipe.pump()
         return True
 
@@ -279,6 +293,8 @@ def drive_session(case):
         res.label("per-line-command")
     if s.submit_while_midreply:
         res.label("submit-while-reply-in-progress")
+    if s.reentrant:
+        res.label("submit-from-inside-a-callback")
     if any(len(x) > 16384 for c in cmds for x in wire.reply_lines(c["reply"])):
         res.label("line>16384")
     return res
